@@ -21,6 +21,10 @@ import c15_gen as G
 JSON_KEYS = ('etype', 'node_ids', 'xyz', 'elem_ids', 'conn')
 
 
+OTHER_CALLS = ['volumes', 'metrics', 'adj_node', 'adj_elem', 'n_hop_self', 'incidence', 'grad_incidence',
+               'n2e', 'e2n', 'laplacian', 'edge_gradient', 'surface_normals', 'bad_kernel']
+
+
 def kw_tuple(kw):
     return tuple(sorted((k, repr(v)) for k, v in kw.items()))
 
@@ -85,6 +89,9 @@ def make_sequence(rng, mesh, mode, length, well_fn, alpha_scales, second_order=F
             if kw['moment_matrix'] and not well_fn(kw):
                 kw['moment_matrix'] = False
         seen.append(dict(kw))
+        if k > 0 and rng.random() < 0.35:
+            # another public query between two operator builds (rotating subset)
+            steps.append({'kind': 'call', 'name': rng.choice(OTHER_CALLS), 'mode': mode})
         kind = 'conv' if (k == 0 or rng.random() < 0.8) else 'matrices'
         st = {'kind': kind, 'kw': dict(kw)}
         if kind == 'conv':
@@ -106,7 +113,12 @@ def attach_data(rng, st, P_all):
 def json_steps(steps):
     out = []
     for st in steps:
+        if st['kind'] == 'call':
+            out.append({k: st[k] for k in ('kind', 'name', 'mode', 'obj') if k in st})
+            continue
         d = {'kind': st['kind'], 'kw': st['kw']}
+        if 'obj' in st:
+            d['obj'] = st['obj']
         if st['kind'] == 'conv':
             d['data'] = [[float(x) for x in r] for r in st['data']]     # exact (dyadic)
             d['g'], d['c'] = st['g'], st['c']
@@ -119,6 +131,8 @@ def check_step(st, out, ref, P, well_step, rows_from_coo, fr_hex):
     out = implementation output of the step (same object);
     ref = matrices of a FRESH object built with the same options"""
     n = len(P)
+    if st['kind'] == 'call':
+        return []
     if 'error' in ref:
         return []            # a fresh object raises as well: nothing to compare (the main stream reports)
     if 'error' in out:
